@@ -849,6 +849,16 @@ class Interp:
         tgt = self._ctx_function(it.context_expr, env, m)
         if tgt is None:
             v = self.eval(it.context_expr, env, m)
+            if getattr(v, "_nqsa_model", False) and hasattr(v, "__enter__") and hasattr(v, "__exit__"):
+                # a model object of the rule that is a context manager (a lock whose release is a point where another thread may act)
+                entered = v.__enter__()
+                if it.optional_vars is not None:
+                    self.assign(it.optional_vars, entered, env, m)
+                try:
+                    self._with(st, k + 1, env, m)
+                finally:
+                    v.__exit__(None, None, None)
+                return
             if isinstance(v, tuple) and v and v[0] == "suppress":
                 try:
                     self._with(st, k + 1, env, m)
